@@ -8,6 +8,8 @@ import (
 	"reflect"
 	"runtime"
 	"strings"
+	"sync/atomic"
+	"time"
 
 	golibserrors "github.com/AdguardTeam/golibs/errors"
 	"github.com/AdguardTeam/golibs/netutil/urlutil"
@@ -335,6 +337,34 @@ func evalC16(line string) Result {
 	return evalC16Err(c)
 }
 
+// c16WatchUser repeats call for a millisecond or two while another goroutine reads in.User, and
+// reports whether that goroutine ever saw a value other than the original one (only reads on
+// this side: a write by the callee, even one that is undone before it returns, is the defect).
+func c16WatchUser(in *url.URL, call func()) bool {
+	orig := in.User
+	var started, stop, seen atomic.Bool
+	done := make(chan struct{})
+	go func() {
+		defer close(done)
+		started.Store(true)
+		for !stop.Load() {
+			if in.User != orig {
+				seen.Store(true)
+				return
+			}
+		}
+	}()
+	for !started.Load() {
+		runtime.Gosched()
+	}
+	for t0 := time.Now(); time.Since(t0) < 1500*time.Microsecond && !seen.Load(); {
+		call()
+	}
+	stop.Store(true)
+	<-done
+	return seen.Load()
+}
+
 func evalC16Redact(c c16Case) Result {
 	mask, maskOK := c16Mask()
 	d := &c16Direct{}
@@ -387,6 +417,10 @@ func evalC16Redact(c c16Case) Result {
 		if !unchanged {
 			d.fail("input-modified", "URL %d was modified by RedactUserinfo: now %q, was %q", i+1, in.String(), origStr[i])
 		}
+	}
+	// "the input URL is never modified" includes the time the call is running
+	if !users[0].isNil && c16WatchUser(ins[0], func() { urlutil.RedactUserinfo(ins[0]) }) {
+		d.fail("input-modified-during-call", "URL 1: another goroutine saw a different User in the input URL while RedactUserinfo was running")
 	}
 	// a caller owns what it was given: it rewrites every field of its result (with a password in
 	// it), then the same input is redacted again, as it would be for the next log line
@@ -506,6 +540,16 @@ func evalC16Err(c c16Case) Result {
 		unchanged := snap.unchanged(in) && in.String() == origStr
 		if !unchanged {
 			d.fail("input-modified", "URL %d was modified by RedactUserinfoInURLError: now %q, was %q", i+1, in.String(), origStr)
+		}
+		// "never modified" includes the time the call is running: the URL may be shared with
+		// other goroutines that read it.  A watcher reads in.User while the call is repeated
+		// for a millisecond or two (only reads on this side: a write by the callee is the defect).
+		if unchanged && c.kind == "url" && in.User != nil && i == 0 {
+			if c16WatchUser(in, func() {
+				urlutil.RedactUserinfoInURLError(in, &url.Error{Op: "Get", URL: origStr, Err: errC16Inner})
+			}) {
+				d.fail("input-modified-during-call", "URL %d: another goroutine saw a different User in the input URL while RedactUserinfoInURLError was running", i+1)
+			}
 		}
 		if panicked != "" {
 			// Only a typed-nil *url.Error gets here on the unchanged tree; the property
